@@ -93,6 +93,12 @@ claim('C12', 'reference-model monitor on PanelAssembly.get_k0_conn and the fkC* 
       'and symmetry / degree-1 homogeneity of calc_kt_kr.',
       'jump conventions as documented in connections/__init__.py (listed in the evidence assumptions); Panel.uvw kernels (C11)', '4/C12')
 
+claim('C13', 'differential execution: assembled matrices of the real PanelAssembly / StiffPanelBay against stand-alone component matrices from separately constructed objects placed by the monitor; split-skin and one-stiffener-at-a-time bays',
+      'Assemblies of 2..6 unequal panels in shuffled order: k0 (+connection matrix), kG0, kM, fext and size equal the placed stand-alone results; bays with the skin cut at 1..4 random positions equal the uncut bay and the '
+      'full-width analytic panel (k0, kG0, kM); bays with 1..3 stiffeners of the three kinds in every insertion order: K(all) - K(skin) equals the sum of single-stiffener contributions shifted to the documented block offsets, '
+      'each stiffness / mass contribution symmetric and PSD.',
+      'documented block order (skin, BladeStiff2D flanges, TStiff2D base+flange, each in insertion order); PSD judged against eps*||K||', '4/C13')
+
 ALL = ['C%02d' % i for i in range(1, 21)]
 PENDING_REASON = 'check not built yet in this round (runtime-monitoring plan in DESIGN.md section 4); will be claimed once its monitor runs silent on the unchanged tree'
 
